@@ -32,12 +32,15 @@ META = {
         "Generated: weighted digraphs with n<=8 nodes (quick; <=10 thorough), node labels of six kinds (ints, strs, tuples, "
         "mixed, frozensets, huge/negative ints), parallel edges with different weights, self loops, zero weights, cycles; "
         "weights from {0,1,2,3,5,0.5,2.5} (bellman_ford/floyd_warshall also {-0.5,-1,-2,-2.5,-3}); families: uniform, dense, "
-        "parallel-heavy, detour trap (heavy direct edge vs cheap multi-hop route), potential-shifted (negative edges, no "
+        "parallel-heavy, backbone (arborescence + extras), detour (heavy direct edge vs cheap multi-hop route), greedy-trap "
+        "(route starting with one heavy edge beats a longer route of light edges only - wrong frontier orders settle the "
+        "target too early), ladder (two disjoint routes of different hop count, bfs/dfs), potential-shifted (negative edges, no "
         "negative cycle), planted negative cycle attached in/out/both/not at all, reversed-order Hamiltonian chain; goal as "
         "value, as predicate matching 1..3 nodes or none, or a label not in the graph; max_cost and max_iter limits; astar "
         "heuristic = lambda * exact distance to the goal set (inf on dead ends), lambda in {0,1/4,1/2,3/4,1}; grids <=6x6 "
         "(<=8x8 thorough) with random obstacles, start/goal anywhere (blocked, identical), 4/8 neighbours, the five heuristic "
-        "names, blocked as int or set, costs maps, weights 1/0.5/1.5/2. Oracle: exact synchronous Bellman-Ford DP, min-plus "
+        "names, blocked as int or set, costs maps, weights 1/0.5/1.5/2, plus barrier families (blocked wall / expensive band "
+        "with one or two gaps between start and goal). Oracle: exact synchronous Bellman-Ford DP, min-plus "
         "matrix squaring, closure on the reachable sub-graph for negative-cycle reachability, BFS layers, label-correcting "
         "search in Q(sqrt2) for grids. MAX_ITER is accepted only when max_iter <= number of nodes reachable from the start "
         "(the search cannot perform more iterations than that). Non-trivial = the (nearest) target has >=2 simple paths of "
@@ -339,10 +342,11 @@ def grid_cases(draw, tier="quick"):
     costs = draw(st.sampled_from(COSTS))
     if fam == "random":
         start = (draw(st.integers(0, rows - 1)), draw(st.integers(0, cols - 1)))
-        if draw(st.integers(0, 11)) == 11:
+        others = sorted(((r, c) for r in range(rows) for c in range(cols) if (r, c) != start), key=lambda p: (-abs(p[0] - start[0]) - abs(p[1] - start[1]), p))
+        if not others or draw(st.sampled_from([False] * 11 + [True])):
             goal = start
-        else:  # offsets listed so that the "simplest" goal is the cell farthest around the torus
-            goal = ((start[0] + 1 + draw(st.integers(0, rows - 1))) % rows, (start[1] + 1 + draw(st.integers(0, cols - 1))) % cols)
+        else:  # farthest cell first: that is where Hypothesis' bias towards index 0 should go
+            goal = others[draw(st.integers(0, len(others) - 1))]
     else:
         # a barrier column between start and goal with one or two gaps: blocked cells ("wall") or
         # expensive terrain ("band"); a search misled by its heuristic takes the wrong gap / ploughs through
@@ -386,7 +390,7 @@ def grid_cases(draw, tier="quick"):
 # Deterministic work limit (DESIGN §2.4).  C11 does not claim termination, so a case that exceeds it
 # is *inconclusive* ("step-budget"), never an alarm; the limit only keeps a looping solver (e.g. a
 # parent-pointer cycle in path reconstruction) from eating the wall budget.  Largest count observed
-# on the unchanged tree: ~6 200 events (floyd_warshall, n = 10, thorough tier) -> limit = 160x that.
+# on the unchanged tree: 6 092 events (thorough tier, n = 10) -> the limit is about 160x that.
 STEP_LIMIT = 1_000_000
 _instrumented = False
 
@@ -1002,9 +1006,9 @@ def run_grid(desc, ctx):
 
 
 SUBS = [
-    Sub("dijkstra_astar", run_weighted, strategy=lambda tier: weighted_cases(tier), quick=800, thorough=6000, workers_quick=3, case_timeout=20.0),
-    Sub("bfs_dfs", run_unweighted, strategy=lambda tier: unweighted_cases(tier), quick=500, thorough=4000, workers_quick=3, case_timeout=20.0),
-    Sub("bellman_ford", run_bf, strategy=lambda tier: bf_cases(tier), quick=600, thorough=5000, workers_quick=3, case_timeout=20.0),
-    Sub("floyd_warshall", run_fw, strategy=lambda tier: fw_cases(tier), quick=450, thorough=4000, workers_quick=3, case_timeout=20.0),
-    Sub("astar_grid", run_grid, strategy=lambda tier: grid_cases(tier), quick=600, thorough=5000, workers_quick=4, case_timeout=20.0),
+    Sub("dijkstra_astar", run_weighted, strategy=lambda tier: weighted_cases(tier), quick=800, thorough=1500, workers_quick=3, case_timeout=20.0, wall_thorough=300.0),
+    Sub("bfs_dfs", run_unweighted, strategy=lambda tier: unweighted_cases(tier), quick=500, thorough=1000, workers_quick=3, case_timeout=20.0, wall_thorough=300.0),
+    Sub("bellman_ford", run_bf, strategy=lambda tier: bf_cases(tier), quick=600, thorough=1200, workers_quick=3, case_timeout=20.0, wall_thorough=300.0),
+    Sub("floyd_warshall", run_fw, strategy=lambda tier: fw_cases(tier), quick=450, thorough=900, workers_quick=3, case_timeout=20.0, wall_thorough=300.0),
+    Sub("astar_grid", run_grid, strategy=lambda tier: grid_cases(tier), quick=600, thorough=1500, workers_quick=4, case_timeout=20.0, wall_thorough=300.0),
 ]
